@@ -1782,6 +1782,14 @@ func (s *Server) clearExpiredClients(dt int64) {
 		}
 
 		if disconnected+int64(expire) < dt {
+			if pk, ok := s.loop.willDelayed.Get(id); ok { // the session ends here: a will that is still delayed is due now [MQTT-3.1.3-9]
+				s.publishToSubscribers(pk)
+				if pk.FixedHeader.Retain {
+					s.retainMessage(client, pk)
+				}
+				s.hooks.OnWillSent(client, pk)
+				s.loop.willDelayed.Delete(id)
+			}
 			s.hooks.OnClientExpired(client)
 			client.ClearInflights()
 			s.UnsubscribeClient(client)
